@@ -2176,7 +2176,11 @@ class SQLCompiler(Compiled):
 
             if parameter in self.literal_execute_params:
                 if escaped_name not in replacement_expressions:
-                    value = parameters.pop(escaped_name)
+                    # the parameters are keyed by the un-escaped name,
+                    # unless they were built with escape_names=True
+                    value = parameters.pop(
+                        name if name in parameters else escaped_name
+                    )
                     replacement_expressions[escaped_name] = (
                         self.render_literal_bindparam(
                             parameter, render_literal_value=value
